@@ -362,7 +362,7 @@ def run (c : Case) : CaseOut := Id.run do
   match lower pn with
   | .error _ =>
     -- `NewEngine` fails; nothing else can happen
-    let obs := c.ops.map fun (op, _) => if op == ["new"] then [["err"]] else [["no-engine"]]
+    let obs := c.ops.map fun (op, _) => if op == ["new"] then [["err"]] else if op == ["nap"] then [] else [["no-engine"]]
     let implOk := c.ops.all fun (op, o) => op != ["new"] || o == [["err"]]
     return { obs := obs, spec := if implOk then "ok" else "fail:invalid-pattern-accepted", tags := ["compile-error"] }
   | .ok pat =>
